@@ -108,6 +108,12 @@ def unmk(o, tags):
     return o.v
 
 
+def unmk_ml(o, tags):
+    if getattr(o, "tag", None) not in tags:
+        raise WrongRole(f"serializer of {tags} applied to a value tagged {getattr(o, 'tag', None)}")
+    return o
+
+
 def untyped(f):
     """same function without annotations (source/target then come from the Conversion object)"""
     def conv(x):
